@@ -7,18 +7,23 @@ from .. import calg, cstmt, jmodel as J
 from ..cskel import Skel, OPEN, CLOSE
 
 EXPLANATION = (
-    "On the C++ of cvode/src/naunet.cpp.j2 specialised per method and the two odeint files (statement parser, no compilation; bare calls of void helpers "
-    "defined in the same file are replaced by their bodies, parameters are taken by position from the function header, guard clauses count as guards): "
-    "R1 every status returned by a CVode* call in Solve / HandleError is read (CheckFlag, HandleError argument, comparison) before it is overwritten or the "
-    "function returns; R2 in HandleError every exit that can return NAUNET_SUCCESS is unreachable for a sample of negative flags under the guards that still "
+    "On the C++ of cvode/src/naunet.cpp.j2 specialised per method and the two odeint files (statement parser, no compilation; calls of helpers "
+    "defined in the same file are replaced by their bodies under C++ parameter passing -- a by-value parameter the helper writes is a copy, reference / "
+    "pointer parameters are the caller's variable, early returns become the other arm of their guard --, named numeric constants of the file and its "
+    "headers and CVODE's flag names are their numbers, parameters are taken by position from the function header, guard clauses count as guards): "
+    "R1 every status returned by a CVode* call in Solve / HandleError / Init / Reset (and in any other function of the file that stores one) is read "
+    "(CheckFlag, HandleError argument, comparison) before it is overwritten or the function returns, and a NAUNET_FAIL reported by an inlined helper is "
+    "looked at by its caller; R2 in HandleError every exit that can return NAUNET_SUCCESS is unreachable for a sample of negative flags under the guards that still "
     "hold there (conditions evaluated, not matched; a test on a flag written since does not count), the function falls through to NAUNET_FAIL; Solve hands "
     "HandleError the flag, the state, the interval and the time CVode reached, returns its result and logs the initial state iff it is NAUNET_FAIL; "
     "R3 ladder premises by symbolic execution of the start of a level for each sampled flag: -1..-4 and -6 reach CVodeReInit(cv_mem_, 0, cv_y_), every other "
     "negative flag returns NAUNET_FAIL; with G = the target of the last sub-step as a function of the state at the re-initialisation (loop variable at its "
     "last value), a recoverable flag leaves G = G(level start) - (time reached) and the state reached, the reset flag leaves G = G(function entry) and "
-    "ab_init_, G(function entry) is the requested interval, and CVode reports progress into the time-reached parameter; levels are 1..5; "
+    "ab_init_, G(function entry) is the requested interval, and CVode reports progress into the time-reached parameter (not into a copy of it); "
+    "the comparisons are made for every level with the loop variable at its value; levels (the loop variable, or the number derived from it that the "
+    "targets use) are 1..5; "
     "R4 odeint: the observer throws exactly when counter > budget (truth table), counts unconditionally and before testing, the thrown type is the type "
-    "Solve catches, Solve returns NAUNET_SUCCESS when the try block completes and NAUNET_FAIL through every handler, integrate_adaptive runs over [0, dt] on the "
+    "Solve catches, Solve returns NAUNET_SUCCESS when the try block completes and NAUNET_FAIL through every handler (entered from each statement of the try block that can throw), integrate_adaptive runs over [0, dt] on the "
     "vector that is copied back, with an observer built per call from mxsteps_; R5 every caller of Solve inside the templates throws exactly when its result is "
     "NAUNET_FAIL (cvode and odeint Python wrappers agree); R6 (premise of R3) cv_y_ has no storage of its own and is pointed at the caller's array before "
     "CVodeInit, so the state HandleError writes is the state CVodeReInit restarts from.")
@@ -51,19 +56,57 @@ class _Func:
         self.fn = cstmt.Fn(body)
 
 
+# the functions the property is about: a call of one of them is an anchor of a rule, never an extracted piece of another function
+SUBJECTS = {"Solve", "HandleError", "CheckFlag", "PyWrapSolve", "Init", "Reset", "Finalize"}
+
+
+_THIS = re.compile(r"\bthis\s*->\s*|\bstd\s*::\s*(?=(?:pow|log10|log|exp|sqrt|fabs|abs|min|max|fmin|fmax|memcpy|memmove|copy|copy_n)\s*\()")
+# `this->x` is `x` (no local of these functions shadows a member); `std::pow` is `pow`
+
+
 def _helpers(sk, but):
-    """void functions of the file (free or member), by unqualified name"""
+    """functions of the file (free or member) whose calls are replaced by their bodies, by unqualified name: (parameters as
+    (name, by-value / reference / pointer, type), parsed body).  Constructors, destructors, operators and the functions the
+    property is about stay calls."""
     cache = sk.__dict__.setdefault("_c19_helpers", {})
     for f in sk.funcs:
-        short = f.name.split("::")[-1]
-        if f.name in cache or f.name == "?" or not re.search(r"\bvoid\b[\s\w:*&]*\b" + re.escape(short) + r"\s*\($", f.header[:f.header.find("(") + 1].replace("\n", " ")):
+        if f.name in cache or f.name == "?":
             continue
-        params = cstmt.params_of(f.header)
+        parts = f.name.split("::")
+        short = parts[-1]
+        cache[f.name] = None
+        if short in SUBJECTS or short.startswith(("~", "operator")) or (len(parts) > 1 and parts[-2] == short) \
+                or not re.search(r"[\w>*&]\s+[\w:]*\b" + re.escape(short) + r"\s*\($", f.header[:f.header.find("(") + 1].replace("\n", " ")):
+            continue
+        params = cstmt.param_decls(f.header)
+        if params is None:
+            continue
         try:
-            cache[f.name] = (short, params, cstmt.parse_body(cstmt.expand_macros(_ctext(sk, f.body), sk.__dict__.get("_c19_macros", {})))) if params is not None else None
+            cache[f.name] = (short, params, cstmt.parse_body(_THIS.sub("", cstmt.expand_macros(_ctext(sk, f.body), sk.__dict__.get("_c19_macros", {})))))
         except cstmt.CStmtError:
-            cache[f.name] = None
+            pass
     return {v[0]: (v[1], v[2]) for k, v in cache.items() if v and k != but}
+
+
+def _named_constants(ctx, sk, rel):
+    """{name: tokens of its number} for the numeric constants visible in the file: its own file scope, the class header and the
+    macro headers of the back-end (`static const int kLevels = 5;`, `#define NAUNET_MAX_LEVEL 5`).  A constant named
+    instead of written out is the same number; the names this module gives a meaning itself stay names."""
+    outside, last = [], 0
+    for f in sk.funcs:
+        outside.append(sk.clean[last:f.start])
+        last = f.end
+    outside.append(sk.clean[last:])
+    texts = []
+    inc = rel.rsplit("/src/", 1)[0] + "/include/"
+    for h in ("naunet/templates/base/cpp/include/naunet_macros.h.j2", inc + "naunet_macros.h.j2", inc + "naunet_constants.h.j2", inc + "naunet.h.j2"):
+        if ctx.tree.exists(h):
+            texts.append(ctx.tree.read(h))
+    texts.append(_ctext(sk, ";".join(outside)))
+    vals = {}
+    for t in texts:
+        vals.update(cstmt.const_defs(t, vals))
+    return {k: cstmt.const_tokens(v) for k, v in vals.items() if k not in CONSTS and k != "NEQUATIONS"}
 
 
 def _func(ctx, rel, cfg, fname):
@@ -73,15 +116,29 @@ def _func(ctx, rel, cfg, fname):
         return None
     if "_c19_macros" not in sk.__dict__:
         sk._c19_macros = cstmt.macro_defs(_ctext(sk, sk.clean))
-    text = cstmt.expand_macros(_ctext(sk, fs[0].body), sk._c19_macros)
+        sk._c19_consts = _named_constants(ctx, sk, rel)
+    text = _THIS.sub("", cstmt.expand_macros(_ctext(sk, fs[0].body), sk._c19_macros))
     try:
         body = cstmt.inline_calls(cstmt.parse_body(text), _helpers(sk, fname))
+        if sk._c19_consts:
+            shadow = cstmt.declared_locals(body) | set(cstmt.params_of(fs[0].header) or ())
+            body = cstmt._subst_stmt(body, {k: v for k, v in sk._c19_consts.items() if k not in shadow})
     except cstmt.CStmtError as ex:
         ctx.unrec("R1", f"{rel.split('/')[-1]}:{fname}", (rel, 0), f"statement parser: {ex}")
         return None
     fn = _Func(sk, fs[0], body)
     fn.text = text
     return fn
+
+
+class Ctx_probe:
+    """a context that swallows the `unrecognised` of a function nobody has to understand (not one of the drivers)"""
+
+    def __init__(self, ctx):
+        self.tree = ctx.tree
+
+    def unrec(self, *a, **k):
+        pass
 
 
 def _body(ctx, rel, cfg, fname):
@@ -98,6 +155,20 @@ def check(ctx):
     _r6(ctx)
 
 
+def _flat_text(ctx, sk, f, cfg, fname):
+    """the statements of a function as one text, in order, with the calls of the file's own helpers replaced by their bodies
+    (set-up moved into a private member is still the set-up of this function); the plain text when the body does not parse"""
+    fn = _func(ctx, CV, cfg, fname)
+    if fn is None:
+        return sk.plain(f.body)
+    parts = []
+    for st, _ in cstmt.walk(fn.body):
+        for pt in st[1:]:
+            if isinstance(pt, list) and (not pt or isinstance(pt[0], str)):
+                parts.append(" ".join(pt))
+    return " ; ".join(parts) + " ;"
+
+
 def _r6(ctx):
     """The ladder of HandleError restores / keeps the state by writing the caller's array `ab` and then CVodeReInit(.., cv_y_).
     That reaches the integrator only because cv_y_ has no storage of its own and is pointed at `ab` before CVodeInit: the
@@ -109,7 +180,7 @@ def _r6(ctx):
         if not fs:
             ctx.missing("R6", f"cvode/{mth}:Solve", (CV, 0), "Naunet::Solve not found")
             continue
-        body = sk.plain(fs[0].body)
+        body = _flat_text(ctx, sk, fs[0], cfg, "Naunet::Solve")
         ps = cstmt.params_of(fs[0].header)
         ab = re.escape(ps[0]) if ps else "ab"
         alias = [m.start() for m in re.finditer(r"\bN_VSetArrayPointer\s*\(\s*" + ab + r"\s*,\s*cv_y_\s*\)|\bNV_DATA_S\s*\(\s*cv_y_\s*\)\s*=\s*" + ab + r"\s*;"
@@ -131,7 +202,7 @@ def _r6(ctx):
             f2 = sk.func(fname)
             if not f2:
                 continue
-            b2 = sk.plain(f2[0].body)
+            b2 = _flat_text(ctx, sk, f2[0], cfg, fname)
             mk = re.findall(r"cv_y_\s*=\s*(\w+)\s*\(", b2)
             key = f"cvode/{mth}:{fname.split('::')[1]}:cv_y_ has no storage of its own"
             if mk and set(mk) <= {"N_VNewEmpty_Serial", "N_VNewEmpty"}:
@@ -142,11 +213,25 @@ def _r6(ctx):
                 ctx.unrec("R6", key, (CV, 0), f"how cv_y_ is created is not understood: {mk}")
 
 
+DRIVERS = ("Naunet::Solve", "Naunet::HandleError", "Naunet::Init", "Naunet::Reset")
+
+
 def _r1(ctx):
     n = 0
     for mth in ("dense", "sparse", "cusparse"):
-        for fname in ("Naunet::Solve", "Naunet::HandleError", "Naunet::Init", "Naunet::Reset"):
-            body, _ = _body(ctx, CV, {"general.method": mth}, fname)
+        # the drivers, and any other function of the file that stores the status of a CVode* call (a step of a driver moved into a
+        # private member that is not inlined because it returns from inside a loop keeps its own discipline)
+        sk = Skel(J.flatten(ctx.tree, CV, {"general.method": mth}))
+        others = [f.name for f in sk.funcs if f.name not in DRIVERS and f.name != "?" and re.search(r"=\s*CVode(?!Create|Free)\w*\s*\(", sk.plain(f.body))]
+        for fname in DRIVERS + tuple(dict.fromkeys(others)):
+            if fname in others:
+                probe = Ctx_probe(ctx)
+                body, _ = _body(probe, CV, {"general.method": mth}, fname)
+                if body is None:
+                    continue
+                n -= 1
+            else:
+                body, _ = _body(ctx, CV, {"general.method": mth}, fname)
             if body is None:
                 if fname in ("Naunet::Solve", "Naunet::HandleError"):
                     ctx.missing("R1", f"cvode/{mth}:{fname}", (CV, 0), "function not found")
@@ -157,6 +242,14 @@ def _r1(ctx):
             if not probs:
                 ncalls = sum(1 for s, c in cstmt.walk(body) if s[0] == "expr" and cstmt.assigned_call(s[1]) and cstmt.assigned_call(s[1])[1].startswith("CVode"))
                 ctx.ok("R1", key, (CV, 0), f"every status of the {ncalls} CVode* calls is tested before it is overwritten or the function returns")
+            # a private helper of the driver that reports NAUNET_FAIL (set-up moved into a member): its caller must look at the result
+            for st, c in cstmt.walk(body):
+                if st[0] == "expr" and "=" in st[1] and st[1].index("=") and cstmt.DROPPED in st[1][st[1].index("=") - 1] \
+                        and cstmt.value(st[1][st[1].index("=") + 1:], CONSTS) == 1:
+                    callee = st[1][st[1].index("=") - 1].split(cstmt.DROPPED)[0]
+                    ctx.bad("R1", f"{key}:{callee}", (CV, 0), f"{callee}(..) reports NAUNET_FAIL and {fname.split('::')[-1]} calls it without looking at the result: a failed step is carried on with as if it had succeeded",
+                            expected=f"if ({callee}(..) == NAUNET_FAIL) return NAUNET_FAIL;", found=f"{callee}(..);")
+                    break
             for var, callee, how in probs:
                 ctx.bad("R1", f"{key}:{callee}", (CV, 0),
                         f"the status `{var}` returned by {callee}(..) is {how}: a failed integration is reported as success",
@@ -164,7 +257,12 @@ def _r1(ctx):
     ctx.floor("R1", "driver functions", n, 9)
 
 
-CONSTS = {"NAUNET_SUCCESS": 0, "NAUNET_FAIL": 1}
+# the two results of this API, and the return values of CVode() as <cvode/cvode.h> names them (a flag tested by name is the same test)
+CVODE_FLAGS = {"CV_SUCCESS": 0, "CV_TSTOP_RETURN": 1, "CV_ROOT_RETURN": 2, "CV_WARNING": 99, "CV_TOO_MUCH_WORK": -1, "CV_TOO_MUCH_ACC": -2,
+               "CV_ERR_FAILURE": -3, "CV_CONV_FAILURE": -4, "CV_LINIT_FAIL": -5, "CV_LSETUP_FAIL": -6, "CV_LSOLVE_FAIL": -7, "CV_RHSFUNC_FAIL": -8,
+               "CV_FIRST_RHSFUNC_ERR": -9, "CV_REPTD_RHSFUNC_ERR": -10, "CV_UNREC_RHSFUNC_ERR": -11, "CV_RTFUNC_FAIL": -12, "CV_MEM_FAIL": -20,
+               "CV_MEM_NULL": -21, "CV_ILL_INPUT": -22, "CV_NO_MALLOC": -23, "CV_BAD_K": -24, "CV_BAD_T": -25, "CV_BAD_DKY": -26, "CV_TOO_CLOSE": -27}
+CONSTS = {"NAUNET_SUCCESS": 0, "NAUNET_FAIL": 1, **CVODE_FLAGS}
 REC, RESET = (-1, -2, -3, -4), (-6,)
 NEG = (-1, -2, -3, -4, -5, -6, -7, -8, -9, -10, -11, -22, -99)      # sample of failure flags: CVODE's own range and beyond
 
@@ -182,10 +280,19 @@ def _guards(F, conds, st, keep=()):
             continue
         gp = F.pos.get(id(g[3]), 0)
         toks = _checkflag(F.expand(g[1], gp, keep=keep))
+        # `++n > m` tests the incremented n; `n++ >= m` tests the value before, (n - 1) in terms of the incremented one
+        toks = list(toks)
+        for j in range(len(toks) - 1, 0, -1):
+            if toks[j] == "++" and cstmt.IDENT.match(toks[j - 1]) and not (j > 1 and toks[j - 2] in (".", "->")):
+                toks[j - 1:j + 1] = ["(", toks[j - 1], "-", "1", ")"]
         toks = tuple(t for j, t in enumerate(toks) if not (t == "++" and j + 1 < len(toks) and cstmt.IDENT.match(toks[j + 1])
                                                             and not (j and (cstmt.IDENT.match(toks[j - 1]) or toks[j - 1] in (")", "]")))))
         names = {t for t in toks if cstmt.IDENT.match(t)}
-        stale = any(gp < i < sp for nm in names for i, op, rhs, decl in F.defs.get(nm, ())) or any(F.pos.get(id(lp), 0) > gp and cstmt.written(lp) & names for lp in loops)
+        # a guard clause (`if (c) { ..; return; }` before `st`): what its leaving arm writes is never seen by `st`
+        inside = {id(x) for x, _ in cstmt.walk(g[3])}
+        own = set() if id(st) in inside else {F.pos[i] for i in inside if i in F.pos}
+        stale = any(gp < i < sp and i not in own for nm in names for i, op, rhs, decl in F.defs.get(nm, ())) \
+            or any(F.pos.get(id(lp), 0) > gp and cstmt.written(lp) & names for lp in loops)
         if not stale:
             out.append((g[0], toks, g[2], g[3]))
     return out
@@ -220,11 +327,45 @@ def _relevant(F, g, names):
     return any(t in names or t in F.defs for t in g[1] if cstmt.IDENT.match(t))
 
 
+def _bare(tokens) -> str:
+    """an expression without the parentheses that enclose all of it"""
+    toks = list(tokens)
+    while len(toks) >= 2 and toks[0] == "(" and toks[-1] == ")" and cstmt.sole_call(["f"] + toks):
+        toks = toks[1:-1]
+    return cstmt.norm(toks)
+
+
 def _is_call(st, callee):
     if st[0] != "expr":
         return None
     ac = cstmt.assigned_call(st[1])
     return ac if ac and ac[1] == callee else None
+
+
+def _latched(F, x, st, FLAG):
+    """`bool done = false; for (..) { .. if (c) { done = true; break; } } if (done) return ..;` -- a test on a local that is only
+    ever set to constants holds exactly when the one assignment of a true value ran last: the guards of that assignment stand
+    in for the test, provided control leaves the loops around the assignment right after it and the flag is not written
+    between there and `st`.  -> the guards, or None when `x` is not such a test"""
+    toks = [t for t in x[1] if t not in ("(", ")")]
+    if len(toks) != 1 or not x[2] or not cstmt.IDENT.match(toks[0]):
+        return None
+    ds = F.defs.get(toks[0], ())
+    if len(ds) < 2 or any(op != "=" or rhs is None or cstmt.value(rhs, CONSTS) is None for i, op, rhs, decl in ds):
+        return None
+    true_sites = [i for i, op, rhs, decl in ds if cstmt.value(rhs, CONSTS)]
+    sp = F.pos[id(st)]
+    if len(true_sites) != 1 or true_sites[0] >= sp or F.written_between({FLAG}, true_sites[0], sp):
+        return None
+    site, conds = F.seq[true_sites[0]]
+    around = [g[3] for g in conds if g[0] in ("for", "while")]
+    if any(id(st) in {id(y) for y, _ in cstmt.walk(lp)} for lp in around) or len(around) > 1:
+        return None
+    if around:
+        nxt = [blk[1][j + 1] for blk, _ in cstmt.walk(around[0]) if blk[0] == "block" for j, y in enumerate(blk[1][:-1]) if y is site]
+        if not nxt or nxt[0][0] != "break":
+            return None
+    return [y for y in _guards(F, conds, site, keep=(FLAG,)) if y[0] == "if"]
 
 
 def _r2_handle_error(ctx, label, F, FLAG):
@@ -233,7 +374,7 @@ def _r2_handle_error(ctx, label, F, FLAG):
     odd = []
     for s, c in rets:
         g = _guards(F, c, s, keep=(FLAG,))
-        ifs = [x for x in g if x[0] == "if"]
+        ifs = [y for x in g if x[0] == "if" for y in (_latched(F, x, s, FLAG) or [x])]
         # is this an exit that can report success at all?
         v0 = cstmt.value(s[1], {FLAG: 0, **CONSTS})
         if v0 is None or v0 not in (0, 1):
@@ -268,8 +409,12 @@ def _r2_handle_error(ctx, label, F, FLAG):
             # the tested flag is the returned-on flag: no write to it between the test and the return
             rp = F.pos[id(s)]
             est = [x for x in ifs if all(cstmt.truth(x[1], {FLAG: v, **CONSTS}) is (not x[2]) for v in NEG)]
-            starts = [F.pos.get(id(x[3]), 0) for x in (est or ifs)]
-            unchanged = any(not F.written_between({FLAG}, p, rp) for p in starts) if est else not F.written_between({FLAG}, min(starts or [rp]), rp)
+            def since(x):
+                """is the flag written between the test `x` and the return?  (not counting the leaving arm of a guard clause)"""
+                inside = {id(y) for y, _ in cstmt.walk(x[3])}
+                own = set() if id(s) in inside else {F.pos[i] for i in inside if i in F.pos}
+                return any(F.pos.get(id(x[3]), 0) < i < rp and i not in own for i, op, rhs, decl in F.defs.get(FLAG, ()))
+            unchanged = any(not since(x) for x in est) if est else not any(since(x) for x in ifs)
             ctx.check(unchanged, "R2", f"{label}:HandleError:flag unchanged before success#{nsucc}", (CV, 0), "the tested flag is the one returned on",
                       found=f"{FLAG} is written between its test and the return")
     if odd:
@@ -280,9 +425,42 @@ def _r2_handle_error(ctx, label, F, FLAG):
         ctx.ok("R2", f"{label}:HandleError:success exits", (CV, 0), "success exits: at entry (nothing to repair) and after a completed level")
     else:
         ctx.unrec("R2", f"{label}:HandleError:success exits", (CV, 0), f"expected a success exit at entry and one after a completed level, found {nsucc}")
-    last = F.body[1][-1] if F.body[0] == "block" and F.body[1] else ("?",)
-    ctx.check(last[0] == "return" and cstmt.value(last[1], CONSTS) == 1, "R2", f"{label}:HandleError:falls through to failure", (CV, 0),
-              "when all levels are exhausted the function returns NAUNET_FAIL", found=cstmt.txt(last[1]) if last[0] == "return" else last[0])
+    # ---- the exit taken when the ladder runs out of levels: the function executed with the ladder loop stepped over (what the loop
+    # writes is unknown afterwards, the flag is still a failure)
+    key = f"{label}:HandleError:falls through to failure"
+    ladder = [s for s, c in F.seq if s[0] in ("for", "while", "dowhile") and any(_is_call(x, "CVodeReInit") for x, _ in cstmt.walk(s))]
+    if not ladder:
+        last = F.body[1][-1] if F.body[0] == "block" and F.body[1] else ("?",)
+        ctx.check(last[0] == "return" and cstmt.value(last[1], CONSTS) == 1, "R2", key, (CV, 0),
+                  "when all levels are exhausted the function returns NAUNET_FAIL", found=cstmt.txt(last[1]) if last[0] == "return" else last[0])
+        return
+    ends = {}
+    try:
+        for v in NEG:
+            def over(st, sy):
+                if st is not ladder[0]:
+                    return False
+                for nm in cstmt.written(st) - {FLAG}:
+                    if nm in sy.a:
+                        sy.a[nm] = sy.opaque(nm)
+                    else:
+                        sy.s[nm] = sy.opaque(nm)
+                        sy.c.pop(nm, None)
+                return True
+            sy = cstmt.Sym(concrete={**CONSTS, FLAG: v}, skip=over)
+            r = sy.run(F.body)
+            ends[v] = cstmt.value(r[1], sy._env()) if r and r[0] == "return" else ("falls off the end" if r is None else r[0])
+    except cstmt.Unknown as ex:
+        ctx.unrec("R2", key, (CV, 0), f"the way out of the exhausted ladder is not understood: {ex}")
+        return
+    wrong = {v: e for v, e in ends.items() if e != 1}
+    if not wrong:
+        ctx.ok("R2", key, (CV, 0), "when all levels are exhausted the function returns NAUNET_FAIL")
+    elif any(e == 0 for e in wrong.values()):
+        ctx.bad("R2", key, (CV, 0), "when all levels are exhausted the function returns NAUNET_FAIL", expected="return NAUNET_FAIL after the last level",
+                found=f"NAUNET_SUCCESS with the last flag = {[v for v, e in wrong.items() if e == 0][0]}")
+    else:
+        ctx.unrec("R2", key, (CV, 0), f"cannot follow what the function returns after the last level: {sorted(set(map(str, wrong.values())))}")
 
 
 def _loop_var(loop):
@@ -322,27 +500,39 @@ def _r3_ladder(ctx, label, F, FLAG, AB, DT, T0):
     ctx.ok("R3", f"{label}:level loop", where, "one recovery ladder: the loop that re-initialises the integrator")
     # ---- the levels
     levels = None
-    lv = _loop_var(loop) if loop[0] == "for" else None
+    lpos = F.pos[id(loop)]
+    shown = "; ".join(cstmt.txt(x) for x in loop[1:4]) if loop[0] == "for" else "while (" + cstmt.txt(loop[1]) + ")"
+    lv = _loop_var(loop) if loop[0] in ("for", "while") else None
+    if lv and loop[0] == "while":
+        # the increment is a statement of the body: a `continue` of this loop would skip it
+        for s, c in cstmt.walk(loop):
+            inner = [g for g in c if g[0] in ("for", "while")]
+            if s[0] == "continue" and inner and inner[-1][3] is loop:
+                lv = None
     if lv:
-        init = [a for a in cstmt.assignments(loop[1]) if a[0] == lv[0] and a[1] == "="]
-        start = cstmt.value(init[0][2], {}) if init else None
-        if isinstance(start, int):
+        # the first value: the for-header, or (while) the one assignment before the loop; named bounds (`const int last = 5;`)
+        # are replaced by their definitions
+        if loop[0] == "for":
+            init = [(lpos, a[2]) for a in cstmt.assignments(loop[1]) if a[0] == lv[0] and a[1] == "="]
+        else:
+            init = [(i, rhs) for i, op, rhs, decl in F.defs.get(lv[0], ()) if i < lpos and op == "="][-1:]
+            init = [x for x in init if not F.written_between({lv[0]}, x[0], lpos)]
+        start = cstmt.value(F.expand(init[0][1], init[0][0]), CONSTS) if init else None
+        cond = F.expand(loop[2] if loop[0] == "for" else loop[1], lpos, keep=(lv[0],))
+        if isinstance(start, int) and not isinstance(start, bool):
             levels = []
             x = start
-            while len(levels) < 50 and cstmt.truth(loop[2], {lv[0]: x}):
+            while len(levels) < 50 and cstmt.truth(cond, {**CONSTS, lv[0]: x}):
                 levels.append(x)
                 x += 1
     if levels is None:
-        ctx.unrec("R3", f"{label}:five levels", where, "cannot enumerate the levels of `" + ("; ".join(cstmt.txt(x) for x in loop[1:4]) if loop[0] == "for" else "while (" + cstmt.txt(loop[1]) + ")") + "`")
+        ctx.unrec("R3", f"{label}:five levels", where, f"cannot enumerate the levels of `{shown}`")
         return
     LV = lv[0]
-    if levels == [1, 2, 3, 4, 5]:
-        ctx.ok("R3", f"{label}:five levels", where, "levels 1..5")
-    else:
-        ctx.unrec("R3", f"{label}:five levels", where, f"the levels are numbered {levels}, not 1..5: `{cstmt.txt(loop[1])}; {cstmt.txt(loop[2])}; {cstmt.txt(loop[3])}`")
-        if not levels:
-            return
-    lbody = loop[4]
+    if not levels:
+        ctx.unrec("R3", f"{label}:five levels", where, f"the loop `{shown}` has no iteration this rule can enumerate")
+        return
+    lbody = loop[4] if loop[0] == "for" else loop[2]
     lstm = lbody[1] if lbody[0] == "block" else [lbody]
     at = [i for i, x in enumerate(lstm) if reinit(x)]
     if len(at) != 1:
@@ -370,7 +560,19 @@ def _r3_ladder(ctx, label, F, FLAG, AB, DT, T0):
         cv = _is_call(r[1], "CVode")
         args = [cstmt.norm(a) for a in cv[2]]
         okc = cv[0] == FLAG and len(args) == 5 and args[0] == "cv_mem_" and args[2] == "cv_y_" and args[3] == "&" + T0 and args[4] == "CV_NORMAL"
-        ctx.check(okc, "R3", f"{label}:CVode call", where, f"{FLAG} = CVode(cv_mem_, tout, cv_y_, &{T0}, CV_NORMAL): progress is reported into {T0}", found=f"{cv[0]} = CVode({', '.join(args)})")
+        tret = args[3][1:] if len(args) == 5 and args[3].startswith("&") and cstmt.IDENT.match(args[3][1:]) else None
+        if not okc and tret and tret != T0 and cv[0] == FLAG and args[:3] + args[4:] == ["cv_mem_", args[1], "cv_y_", "CV_NORMAL"]:
+            # positive evidence: the time reached goes somewhere else (another local, or the copy a helper works on when it
+            # takes the time BY VALUE) and this function's own variable keeps the value it had at the re-initialisation
+            kept = post.expr(T0)
+            src = post.expr(tret)
+            ctx.bad("R3", f"{label}:CVode call", where,
+                    f"CVode reports the time reached into `{tret}`" + (f" (a copy of {T0}: the sub-step loop works on a by-value parameter)" if cstmt.same_value(src, kept) and "__byval" in tret else "")
+                    + f", not into {T0}: at the next level the recoverable branch subtracts an unchanged {T0} (= {kept if kept != T0 else 'its value at the re-initialisation'}) from the time left -- "
+                    "the part already integrated is integrated again from the state reached, and Solve reports success",
+                    expected=f"{FLAG} = CVode(cv_mem_, tout, cv_y_, &{T0}, CV_NORMAL)", found=f"{cv[0]} = CVode({', '.join(args)})")
+        else:
+            ctx.check(okc, "R3", f"{label}:CVode call", where, f"{FLAG} = CVode(cv_mem_, tout, cv_y_, &{T0}, CV_NORMAL): progress is reported into {T0}", found=f"{cv[0]} = CVode({', '.join(args)})")
         G = post.subst(cstmt.strip_casts(cv[2][1])) if len(cv[2]) > 1 else "?"
         Gt = cstmt.tokenize(G)
     except cstmt.Unknown as ex:
@@ -381,18 +583,20 @@ def _r3_ladder(ctx, label, F, FLAG, AB, DT, T0):
     outcome = {}
     try:
         for v in NEG:
-            pre = cstmt.Sym({DT: DT + "__entry", T0: T0 + "__entry"}, {AB: AB + "__entry"}, {FLAG: v}, stop=lambda st: st is loop)
+            pre = cstmt.Sym({DT: DT + "__entry", T0: T0 + "__entry"}, {AB: AB + "__entry"}, {**CONSTS, FLAG: v}, stop=lambda st: st is loop)
             r = pre.run(body)
             if r and r[0] == "return" and cstmt.value(r[1], CONSTS) == 1:
                 outcome[v] = ("fail", None)
                 continue
             if not r or r[0] != "stop":
                 raise cstmt.Unknown(f"with {FLAG} = {v} the ladder is not reached ({r})")
-            for lvl in (levels[0], levels[-1]) if levels else (1,):
+            for lvl in levels:
                 # at the head of a level: what the loop writes has an unknown (named) value, everything else its value from before the loop
                 arrs = {k: k + "__head" for k in W if k not in pre.s}
                 arrs.update({k: (k + "__head" if k in W else e) for k, e in pre.a.items()})
-                head = cstmt.Sym({k: (k + "__head" if k in W else e) for k, e in pre.s.items()}, arrs, {FLAG: v, LV: lvl}, stop=lambda st: st is rst)
+                head = cstmt.Sym({k: (k + "__head" if k in W else e) for k, e in pre.s.items()}, arrs, {**CONSTS, FLAG: v, LV: lvl}, stop=lambda st: st is rst)
+                if LV in head.s:            # (a `while` ladder: the level counter is a local of the function; its value in this level is known)
+                    head.s[LV] = str(lvl)
                 hs = head.clone()
                 r = head.run(lbody)
                 if r and r[0] == "return":
@@ -401,7 +605,7 @@ def _r3_ladder(ctx, label, F, FLAG, AB, DT, T0):
                         raise cstmt.Unknown(f"with {FLAG} = {v} the level leaves with `{cstmt.txt(r[1])}`")
                     res = ("fail" if val == 1 else "success", None)
                 elif r and r[0] == "stop":
-                    res = ("reach", (pre, hs, head))
+                    res = ("reach", {**(outcome[v][1] if v in outcome and outcome[v][0] == "reach" else {}), lvl: (pre, hs, head)})
                 else:
                     raise cstmt.Unknown(f"with {FLAG} = {v} the level body ends in {r} before the re-initialisation")
                 if v in outcome and outcome[v][0] != res[0]:
@@ -411,6 +615,18 @@ def _r3_ladder(ctx, label, F, FLAG, AB, DT, T0):
         ctx.unrec("R3", f"{label}:ladder", where, f"the start of a level is not understood: {ex}")
         return
     reach = sorted(v for v, o in outcome.items() if o[0] == "reach")
+    # ---- the level numbers: the loop variable, or the number derived from it that the sub-step targets are computed from
+    # (`for (lv = 0; lv < 5; lv++) { const int level = lv + 1; ..`)
+    numbering = {LV: levels}
+    for v in reach[:1]:
+        for k in set(Gt):
+            seq = [outcome[v][1][lvl][2].c.get(k) for lvl in levels]
+            if cstmt.IDENT.match(k) and k != FLAG and k not in CONSTS and all(isinstance(x, int) and not isinstance(x, bool) for x in seq):
+                numbering[k] = seq
+    if [1, 2, 3, 4, 5] in numbering.values():
+        ctx.ok("R3", f"{label}:five levels", where, "levels 1..5")
+    else:
+        ctx.unrec("R3", f"{label}:five levels", where, f"the levels are numbered {levels}, not 1..5: `{shown}`")
     lost = [v for v in REC if outcome[v][0] != "reach"]
     ctx.check(not lost, "R3", f"{label}:recoverable flags", where, "flags -1..-4 are the recoverable set", expected="-1..-4 continue with the next level",
               found=f"{lost} leave the ladder; flags that continue: {reach}")
@@ -428,11 +644,23 @@ def _r3_ladder(ctx, label, F, FLAG, AB, DT, T0):
                 return f"{k}{cstmt.OPAQUE}"
         tmp = state.clone()
         tmp.s = {**extra, **state.s}
+        if LV in tmp.s:
+            tmp.s[LV] = fin.s.get(LV, LV)
         return tmp.subst(Gt)
 
-    def verdict(key, pairs, okmsg, badmsg, expected):
-        vals = [cstmt.same_value(a, b) if kind == "scalar" else (None if cstmt.OPAQUE in a + b else a == b) for kind, a, b in pairs]
-        found = "; ".join(f"{a}  vs  {b}" for kind, a, b in pairs)[:300]
+    def at_level(e, lvl):
+        """the loop variable has a value in each level: the comparison is made for that value"""
+        return re.sub(r"\b" + re.escape(LV) + r"\b", str(lvl), e)
+
+    def verdict(key, per_level, okmsg, badmsg, expected):
+        """per_level: [(level, [(kind, a, b)])] -- every level must agree; the first level that does not is shown"""
+        vals, found = [], ""
+        for lvl, pairs in per_level:
+            pairs = [(kind, at_level(a, lvl), at_level(b, lvl)) if kind == "scalar" else (kind, a, b) for kind, a, b in pairs]
+            vs = [cstmt.same_value(a, b) if kind == "scalar" else (None if cstmt.OPAQUE in a + b else a == b) for kind, a, b in pairs]
+            if not found or (any(x is False for x in vs) and not any(x is False for x in vals)) or (any(x is not True for x in vs) and all(x is True for x in vals)):
+                found = (f"level {lvl}: " + "; ".join(f"{a}  vs  {b}" for kind, a, b in pairs))[:320]
+            vals += vs
         if any(x is False for x in vals):
             ctx.bad("R3", key, where, badmsg, expected=expected, found=found)
         elif any(x is None for x in vals):
@@ -442,26 +670,25 @@ def _r3_ladder(ctx, label, F, FLAG, AB, DT, T0):
     for v in REC:
         if outcome[v][0] != "reach":
             continue
-        pre, hs, fin = outcome[v][1]
         verdict(f"{label}:recoverable branch",
-                [("scalar", fin.subst(Gt), f"({G_in(hs, fin)}) - ({hs.expr(T0)})"), ("array", fin.a.get(AB, AB), hs.a.get(AB, AB))],
+                [(lvl, [("scalar", fin.subst(Gt), f"({G_in(hs, fin)}) - ({hs.expr(T0)})"), ("array", fin.a.get(AB, AB), hs.a.get(AB, AB))])
+                 for lvl, (pre, hs, fin) in outcome[v][1].items()],
                 f"keeps the reached state and the time still to integrate ({DT} <- {DT} - {T0})",
                 f"after a recoverable flag the level does not integrate (time left) - (time reached {T0}) from the state reached: the interval is over- or under-run while success is returned",
                 f"{AB} as reached; {DT} - {T0} still to integrate")
         break
     if outcome[-6][0] == "reach":
-        pre, hs, fin = outcome[-6][1]
         verdict(f"{label}:reset branch",
-                [("scalar", fin.subst(Gt), G_in(pre, fin)), ("array", fin.a.get(AB, AB), "ab_init_")],
+                [(lvl, [("scalar", fin.subst(Gt), G_in(pre, fin)), ("array", fin.a.get(AB, AB), "ab_init_")]) for lvl, (pre, hs, fin) in outcome[-6][1].items()],
                 "restores the initial state and the full interval",
                 "after the reset flag the level does not integrate the full interval from ab_init_ (a shortened / stale interval is restored, or the state is not the initial one): "
                 "part of the interval is skipped while success is returned",
                 "ab_init_; the whole interval as given at entry")
-        verdict(f"{label}:last sub-step reaches dt", [("scalar", G_in(pre, fin), DT + "__entry")],
+        verdict(f"{label}:last sub-step reaches dt", [(lvl, [("scalar", G_in(pre, fin), DT + "__entry")]) for lvl, (pre, hs, fin) in outcome[-6][1].items()],
                 f"with the last step the target canonicalises to {DT} (the level integrates the whole remaining time)",
                 f"the last sub-step of a level does not end at the time still to integrate", DT)
     for v in reach:
-        pre, hs, fin = outcome[v][1]
+        pre, hs, fin = outcome[v][1][levels[-1]]
         args = [cstmt.norm(a) for a in rcall[2]]
         t_arg = fin.subst(cstmt.strip_casts(rcall[2][1])) if len(rcall[2]) == 3 else "?"
         z = cstmt.same_value(t_arg, "0")
@@ -488,7 +715,8 @@ def _r2_solve(ctx, label, mth):
         ctx.unrec("R2", f"{label}:Solve:HandleError receives the flag", (CV, 0), f"expected `x = CVode(..)` and `y = HandleError(..)`, found {len(cvs)} and {len(hes)}")
         return
     (cvi, cv), (hei, he) = cvs[0], hes[0]
-    ca, ha = [cstmt.norm(a) for a in cv[2]], [cstmt.norm(a) for a in he[2]]
+    # (an argument handed over under another name -- `const realtype reached = t0;` after the call -- is that argument)
+    ca, ha = [_bare(F.expand(a, cvi)) for a in cv[2]], [_bare(F.expand(a, hei)) for a in he[2]]
     T = ca[3][1:] if len(ca) == 5 and ca[3].startswith("&") else None
     ok = cvi < hei and T is not None and ca == ["cv_mem_", DT, "cv_y_", "&" + T, "CV_NORMAL"] and ha == [cv[0], AB, DT, T] \
         and not F.written_between({cv[0], T, DT}, cvi, hei)
@@ -581,11 +809,17 @@ def _r4(ctx):
     DT = sv.params[1] if sv.params and len(sv.params) >= 2 else "dt"
     STATE = sv.params[0] if sv.params else "abund"
     tries = [s for s, c in SF.seq if s[0] == "try"]
-    if len(tries) != 1:
-        ctx.bad("R4", "Solve:try", (OD, 0), f"expected one try block around the integration, found {len(tries)}")
+    bare = [x for x, c in SF.seq if x[0] == "expr" and "integrate_adaptive" in x[1] and not any(g[0] == "try" for g in c)]
+    if bare:
+        # positive evidence: the integration runs outside every try block, what the observer throws leaves Solve
+        ctx.bad("R4", "Solve:try", (OD, 0), "integrate_adaptive is called outside a try block: exceeding the step budget escapes Solve as an exception instead of returning NAUNET_FAIL",
+                expected="try { .. integrate_adaptive(..) .. } catch (const std::runtime_error &e) { .. NAUNET_FAIL .. }", found=cstmt.txt(bare[0][1])[:120])
+    elif len(tries) != 1:
+        ctx.unrec("R4", "Solve:try", (OD, 0), f"expected one try block around the integration, found {len(tries)}: the shape of Solve is not understood")
     else:
         t = tries[0]
-        integ = [x[1] for x, _ in cstmt.walk(t[1]) if x[0] == "expr" and "integrate_adaptive" in x[1]]
+        integ_st = [x for x, _ in cstmt.walk(t[1]) if x[0] == "expr" and "integrate_adaptive" in x[1]]
+        integ = [x[1] for x in integ_st]
         caught = ["".join(d) for d, b in t[2]]
         type_ok = thrown is not None and any(thrown in c or "std::exception" in c or c == "..." for c in caught)
         ctx.check(type_ok, "R4", "Solve catches what the observer throws", (OD, 0),
@@ -599,8 +833,13 @@ def _r4(ctx):
             args = cstmt._top_split(e[k + 2:-1], (",",)) if e[k + 1:k + 2] == ["("] and e[-1] == ")" else []
             a = [cstmt.norm(x) for x in args]
             back = [src for s, c in SF.seq if SF.pos[id(s)] > SF.pos[id(t)] and s[0] in ("for", "expr") for d, src, n in (cstmt.copies(s) or []) if d == STATE]
-            args_ok = len(a) == 7 and cstmt.IDENT.match(a[2]) and cstmt.value(args[3], {}) == 0 and a[4] == DT and a[5] == DT and cstmt.IDENT.match(a[6]) \
-                and (not back or a[2] in back)
+            ipos = SF.pos.get(id(integ_st[0]), 0)
+
+            def named(x):
+                """an argument with once-defined locals (`const double t_end = dt;`) replaced by their definitions"""
+                return SF.expand(x, ipos)
+            args_ok = len(a) == 7 and cstmt.IDENT.match(a[2]) and cstmt.value(named(args[3]), CONSTS) == 0 and cstmt.same_value(" ".join(named(args[4])), DT) is True \
+                and cstmt.same_value(" ".join(named(args[5])), DT) is True and cstmt.IDENT.match(a[6]) and (not back or a[2] in back)
             ctx.check(bool(args_ok), "R4", "integrate over [0, dt] with the observer", (OD, 0), f"integrate_adaptive(.., y, 0.0, {DT}, {DT}, observer)", found=cstmt.txt(e)[-90:])
             OBS = a[6] if len(a) == 7 else None
         else:
@@ -625,10 +864,17 @@ def _r4(ctx):
                 for d, b in t[2]:
                     sy = cstmt.Sym(concrete=CONSTS)
                     r = sy.run(before)
-                    for nm in cstmt.written(t[1]):
-                        sy.s[nm] = sy.opaque(nm)
-                        sy.c.pop(nm, None)
-                    rough.append(final(sy, [b, after]) if r is None else r[0])
+                    if r is not None:
+                        rough.append(r[0])
+                        continue
+                    # the handler is entered from a statement of the try block that can throw: what precedes it has run, what follows has not
+                    entries = cstmt.handler_entry_states(sy, t[1])
+                    if not entries:
+                        for nm in cstmt.written(t[1]):
+                            sy.s[nm] = sy.opaque(nm)
+                            sy.c.pop(nm, None)
+                        entries = [sy]
+                    rough += [final(e, [b, after]) for e in entries]
             except cstmt.Unknown as ex:
                 ctx.unrec("R4", "odeint Solve returns flag", (OD, 0), f"Solve is not straight-line around the try block: {ex}")
             else:
@@ -642,8 +888,10 @@ def _r4(ctx):
                     ctx.check(ok, "R4", "handler sets failure", (OD, 0), "Solve returns NAUNET_FAIL when the handler ran" if ok else
                               "after a caught exception (step budget exceeded) Solve does not return NAUNET_FAIL: the unfinished state is reported as a success", expected="NAUNET_FAIL (1)", found=str(rough))
                 ctx.check(calm is not None and all(x is not None for x in rough), "R4", "odeint Solve returns flag", (OD, 0), "what Solve returns is decided by whether the handler ran")
-        decl = [x[1] for x, c in SF.seq if x[0] == "expr" and OBS and OBS in x[1] and "Observer" in x[1]]
-        obs = any(cstmt.norm(d) in (f"Observer{OBS}(mxsteps_)", f"Observer{OBS}{{mxsteps_}}", f"Observer{OBS}=Observer(mxsteps_)", f"auto{OBS}=Observer(mxsteps_)") for d in decl)
+        decl = [x for x, c in SF.seq if x[0] == "expr" and OBS and OBS in x[1] and "Observer" in x[1]]
+        # the budget may be handed over under a local name (`const int budget = mxsteps_;`)
+        decl = [d[1][:d[1].index(OBS) + 1] + [t for t in SF.expand(d[1][d[1].index(OBS) + 1:], SF.pos[id(d)]) if t not in ("(", ")", "{", "}")] for d in decl]
+        obs = any(cstmt.norm(d) in (f"Observer{OBS}mxsteps_", f"Observer{OBS}=Observermxsteps_", f"auto{OBS}=Observermxsteps_") for d in decl)
         ctx.check(obs, "R4", "observer gets the step budget", (OD, 0), "Observer observer(mxsteps_): a fresh observer per call, built from the configured budget", found=str([cstmt.txt(d) for d in decl]))
 
 
@@ -756,4 +1004,238 @@ BENIGN = [
         {"file": OD, "old": "y, 0.0, dt, dt, observer);", "new": "state, 0.0, dt, dt, budget);"},
         {"file": OD, "old": "        abund[i] = y[i];\n    }\n\n    return flag;", "new": "        abund[i] = state[i];\n    }\n\n    return flag;"}]},
     {"name": "wrapper-tests-inline", "file": OD, "old": "    int flag             = Solve(abund, dt, data);\n    if (flag == NAUNET_FAIL) {", "new": "    if (Solve(abund, dt, data) != NAUNET_SUCCESS) {"},
+]
+
+
+# ---------------------------------------------------------------- second catalogue: code moved into helpers, named constants, other loop shapes
+_HEAD = "int Naunet::HandleError(int cvflag,"
+_SOLVEHEAD = "int Naunet::Solve(realtype *ab, realtype dt, NaunetData *data) {\n    /* {% if general.method == \"dense\" or general.method == \"sparse\" -%} */\n"
+_LOOP = """        realtype logdt = log10(dt);
+        for (int step = 1; step < nsubsteps + 1; step++) {
+            realtype expo = logdt - (realtype)level;
+            expo += (realtype)level * (realtype)step / (realtype)nsubsteps;
+            realtype tout = pow(10.0, expo);
+
+            // printf("tout: %13.7e, step: %d, level: %d\\n", tout, step, level);
+            // realtype tcur = 0.0;
+            // cvflag = CVodeGetCurrentTime(cv_mem_, &tcur);
+            cvflag        = CVode(cv_mem_, tout, cv_y_, &t0, CV_NORMAL);
+            if (cvflag < 0) {
+                fprintf(errfp_,
+                        "CVode failed in Naunet! Flag = %d in the %dth substep "
+                        "of %dth level! \\n",
+                        cvflag, step, level);
+                if (level < 5) {
+                    fprintf(errfp_,
+                            "Tyring to fix the error in the next level\\n");
+                }
+                // fprintf(errfp_, "Failed to fix the error! cvflag = %d in the
+                // %dth substep! \\n", cvflag, i);
+                break;
+            }
+        }
+"""
+_EXPO = "            realtype expo = logdt - (realtype)level;\n            expo += (realtype)level * (realtype)step / (realtype)nsubsteps;\n            realtype tout = pow(10.0, expo);\n"
+_SUBSTEPTIME = ("static realtype SubstepTime(realtype logdt, int level, int step, int nsubsteps) {\n    realtype expo = logdt - (realtype)level;\n"
+                "    expo += (realtype)level * (realtype)step / (realtype)nsubsteps;\n    return pow(10.0, expo);\n}\n\n")
+_CHECKED = "    if (CheckFlag(&cvflag, \"%s\", 1, errfp_) == NAUNET_FAIL) {\n        return NAUNET_FAIL;\n    }\n"
+_SETUP = ("    N_VSetArrayPointer(ab, cv_y_);\n\n    cv_mem_ = CVodeCreate(CV_BDF, cv_sunctx_);\n\n    cvflag  = CVodeSetErrFile(cv_mem_, errfp_);\n" + _CHECKED % "CVodeSetErrFile"
+          + "\n    cvflag = CVodeSetMaxNumSteps(cv_mem_, mxsteps_);\n" + _CHECKED % "CVodeSetMaxNumSteps" + "\n    cvflag = CVodeInit(cv_mem_, Fex, t0, cv_y_);\n" + _CHECKED % "CVodeInit"
+          + "\n    cvflag = CVodeSStolerances(cv_mem_, rtol_, atol_);\n" + _CHECKED % "CVodeSStolerances" + "\n    cvflag = CVodeSetLinearSolver(cv_mem_, cv_ls_, cv_a_);\n" + _CHECKED % "CVodeSetLinearSolver"
+          + "\n    cvflag = CVodeSetJacFn(cv_mem_, Jac);\n" + _CHECKED % "CVodeSetJacFn" + "\n    cvflag = CVodeSetUserData(cv_mem_, data);\n" + _CHECKED % "CVodeSetUserData")
+_CALL_SETUP = "    if (PrepareIntegrator(ab, t0, data) == NAUNET_FAIL) {\n        return NAUNET_FAIL;\n    }\n"
+_CLASSIFIED = [
+    {"file": CV, "old": "        if (cvflag < 0 && cvflag > -5) {\n", "new": "        const int kind = Classify(cvflag);\n        if (kind == 1) {\n"},
+    {"file": CV, "old": "        } else if (cvflag == -6) {\n", "new": "        } else if (kind == 2) {\n"},
+    {"file": CV, "old": "        } else if (cvflag < 0) {\n            fprintf(\n                errfp_,\n                \"The error cannot", "new": "        } else if (kind == 3) {\n            fprintf(\n                errfp_,\n                \"The error cannot"}]
+
+
+def _subcycle(sig, tref):
+    """the sub-step loop as a member function; `sig` decides how the time reached is passed"""
+    return ("int Naunet::SubCycle(" + sig + ") {\n    int cvflag     = 0;\n    int nsubsteps  = 10 * level;\n    realtype logdt = log10(dt);\n\n"
+            "    for (int step = 1; step < nsubsteps + 1; step++) {\n        realtype expo = logdt - (realtype)level;\n"
+            "        expo += (realtype)level * (realtype)step / (realtype)nsubsteps;\n        realtype tout = pow(10.0, expo);\n"
+            "        cvflag = CVode(cv_mem_, tout, cv_y_, " + tref + ", CV_NORMAL);\n        if (cvflag < 0) {\n            break;\n        }\n    }\n\n    return cvflag;\n}\n\n")
+
+
+def _setup_member(body):
+    return "int Naunet::PrepareIntegrator(realtype *ab, realtype t0, NaunetData *data) {\n    int cvflag;\n" + body + "\n    return NAUNET_SUCCESS;\n}\n\n"
+
+
+def _classify(lowest):
+    return f"static int Classify(int flag) {{\n    if (flag >= 0) return 0;\n    if (flag > {lowest}) return 1;\n    if (flag == -6) return 2;\n    return 3;\n}}\n\n"
+
+
+MUTANTS += [
+    {"name": "substeps-in-a-member-time-by-value", "edits": [
+        {"file": CV, "old": _LOOP, "new": "        cvflag = SubCycle(level, dt, t0);\n"},
+        {"file": CV, "old": _HEAD, "new": _subcycle("int level, realtype dt, realtype t0", "&t0") + _HEAD}], "rules": ["R3"]},
+    {"name": "interval-shortened-on-a-by-value-copy", "edits": [
+        {"file": CV, "old": _HEAD, "new": "static void Shorten(realtype dt, realtype t0) {\n    dt -= t0;\n}\n\n" + _HEAD},
+        {"file": CV, "old": "            dt -= t0;\n", "new": "            Shorten(dt, t0);\n"}], "rules": ["R3"]},
+    {"name": "recoverable-predicate-shrunk", "edits": [
+        {"file": CV, "old": _HEAD, "new": "static bool Recoverable(int flag) { return flag < 0 && flag > -4; }\n\n" + _HEAD},
+        {"file": CV, "old": "        if (cvflag < 0 && cvflag > -5) {\n", "new": "        if (Recoverable(cvflag)) {\n"}], "rules": ["R3"]},
+    {"name": "classifier-shrunk", "edits": [{"file": CV, "old": _HEAD, "new": _classify(-4) + _HEAD}] + _CLASSIFIED, "rules": ["R3"]},
+    {"name": "odeint-success-set-before-integrating", "edits": [
+        {"file": OD, "old": "    int flag = NAUNET_SUCCESS;\n\n    vector_type y", "new": "    int flag = NAUNET_FAIL;\n\n    vector_type y"},
+        {"file": OD, "old": "    try {\n        step_ = integrate_adaptive(", "new": "    try {\n        flag = NAUNET_SUCCESS;\n        step_ = integrate_adaptive("},
+        {"file": OD, "old": "        flag = NAUNET_FAIL;\n", "new": ""}], "rules": ["R4"]},
+    {"name": "setup-member-drops-a-status", "edits": [
+        {"file": CV, "old": _SETUP, "new": _CALL_SETUP},
+        {"file": CV, "old": _SOLVEHEAD, "new": _setup_member(_SETUP.replace(_CHECKED % "CVodeInit", "")) + _SOLVEHEAD}], "rules": ["R1"]},
+    {"name": "setup-member-result-ignored", "edits": [
+        {"file": CV, "old": _SETUP, "new": "    PrepareIntegrator(ab, t0, data);\n"},
+        {"file": CV, "old": _SOLVEHEAD, "new": _setup_member(_SETUP) + _SOLVEHEAD}], "rules": ["R1"]},
+    {"name": "setup-member-copies-the-state", "edits": [
+        {"file": CV, "old": _SETUP, "new": _CALL_SETUP},
+        {"file": CV, "old": _SOLVEHEAD, "new": _setup_member(_SETUP.replace("    N_VSetArrayPointer(ab, cv_y_);\n", "    realtype *ydata = N_VGetArrayPointer(cv_y_);\n    for (int i = 0; i < NEQUATIONS; i++) ydata[i] = ab[i];\n")) + _SOLVEHEAD}], "rules": ["R6"]},
+    {"name": "success-after-the-loop-unguarded", "file": CV, "old": "            // break;\n            return NAUNET_SUCCESS;\n        }\n    }\n", "new": "            break;\n        }\n    }\n    return NAUNET_SUCCESS;\n", "rules": ["R2"]},
+]
+BENIGN += [
+    {"name": "substeps-in-a-member-time-by-reference", "edits": [
+        {"file": CV, "old": _LOOP, "new": "        cvflag = SubCycle(level, dt, t0);\n"},
+        {"file": CV, "old": _HEAD, "new": _subcycle("int level, realtype dt, realtype &t0", "&t0") + _HEAD}]},
+    {"name": "substeps-in-a-member-time-by-pointer", "edits": [
+        {"file": CV, "old": _LOOP, "new": "        cvflag = this->SubCycle(level, dt, &t0);\n"},
+        {"file": CV, "old": _HEAD, "new": _subcycle("int level, realtype dt, realtype *t0", "t0") + _HEAD}]},
+    {"name": "substep-time-from-a-value-helper", "edits": [
+        {"file": CV, "old": _HEAD, "new": _SUBSTEPTIME + _HEAD},
+        {"file": CV, "old": _EXPO, "new": "            const realtype tout = SubstepTime(logdt, level, step, nsubsteps);\n"}]},
+    {"name": "substep-time-helper-inside-the-call", "edits": [
+        {"file": CV, "old": _HEAD, "new": _SUBSTEPTIME + _HEAD},
+        {"file": CV, "old": _EXPO, "new": ""},
+        {"file": CV, "old": "CVode(cv_mem_, tout, cv_y_, &t0, CV_NORMAL);", "new": "CVode(cv_mem_, SubstepTime(logdt, level, step, nsubsteps), cv_y_, &t0, CV_NORMAL);"}]},
+    {"name": "flag-predicates-as-helpers", "edits": [
+        {"file": CV, "old": _HEAD, "new": "static bool Recoverable(int flag) { return flag < 0 && flag > -5; }\nstatic bool NeedsReset(int flag) { return flag == -6; }\n\n" + _HEAD},
+        {"file": CV, "old": "        if (cvflag < 0 && cvflag > -5) {\n", "new": "        if (Recoverable(cvflag)) {\n"},
+        {"file": CV, "old": "        } else if (cvflag == -6) {\n", "new": "        } else if (NeedsReset(cvflag)) {\n"}]},
+    {"name": "flag-classified-by-a-helper-with-early-returns", "edits": [{"file": CV, "old": _HEAD, "new": _classify(-5) + _HEAD}] + _CLASSIFIED},
+    {"name": "cvode-flags-by-name", "edits": [
+        {"file": CV, "old": "        if (cvflag < 0 && cvflag > -5) {\n", "new": "        if (cvflag <= CV_TOO_MUCH_WORK && cvflag >= CV_CONV_FAILURE) {\n"},
+        {"file": CV, "old": "        } else if (cvflag == -6) {\n", "new": "        } else if (cvflag == CV_LSETUP_FAIL) {\n"}]},
+    {"name": "levels-bounded-by-named-constants", "edits": [
+        {"file": CV, "old": _HEAD, "new": "#define NAUNET_MAX_LEVEL 5\nstatic const int kStepsPerLevel = 10;\n\n" + _HEAD},
+        {"file": CV, "old": "for (int level = 1; level < 6; level++) {\n        int nsubsteps = 10 * level;", "new": "for (int level = 1; level <= NAUNET_MAX_LEVEL; level++) {\n        int nsubsteps = kStepsPerLevel * level;"}]},
+    {"name": "level-loop-as-while", "edits": [
+        {"file": CV, "old": "    for (int level = 1; level < 6; level++) {\n", "new": "    const int last = 5;\n    int level = 1;\n    while (level <= last) {\n"},
+        {"file": CV, "old": "            // break;\n            return NAUNET_SUCCESS;\n        }\n    }\n", "new": "            // break;\n            return NAUNET_SUCCESS;\n        }\n        level++;\n    }\n"}]},
+    {"name": "level-counted-from-zero", "file": CV, "old": "    for (int level = 1; level < 6; level++) {\n        int nsubsteps = 10 * level;\n", "new": "    for (int lv = 0; lv < 5; lv++) {\n        const int level = lv + 1;\n        int nsubsteps = 10 * level;\n"},
+    {"name": "substeps-counted-from-zero-std-math", "edits": [
+        {"file": CV, "old": "for (int step = 1; step < nsubsteps + 1; step++) {", "new": "for (int step = 0; step < nsubsteps; step++) {"},
+        {"file": CV, "old": "(realtype)level * (realtype)step / (realtype)nsubsteps;", "new": "(realtype)level * (realtype)(step + 1) / (realtype)nsubsteps;"},
+        {"file": CV, "old": "realtype logdt = log10(dt);", "new": "realtype logdt = std::log10(dt);"},
+        {"file": CV, "old": "realtype tout = pow(10.0, expo);", "new": "realtype tout = std::pow(10.0, expo);"}]},
+    {"name": "handle-error-wrapped-in-the-failure-test", "edits": [
+        {"file": CV, "old": "    if (cvflag >= 0) {\n        return NAUNET_SUCCESS;\n    }\n\n    fprintf(errfp_, \"CVode failed in Naunet! Flag", "new": "    if (cvflag < 0) {\n    fprintf(errfp_, \"CVode failed in Naunet! Flag"},
+        {"file": CV, "old": "    /* {% endif -%} */\n\n    return NAUNET_FAIL;\n}\n\nint Naunet::Init", "new": "    /* {% endif -%} */\n\n    return NAUNET_FAIL;\n    }\n    return NAUNET_SUCCESS;\n}\n\nint Naunet::Init"}]},
+    {"name": "success-through-a-latched-flag", "edits": [
+        {"file": CV, "old": "            // break;\n            return NAUNET_SUCCESS;\n        }\n    }\n", "new": "            fixed = true;\n            break;\n        }\n    }\n    if (fixed) {\n        return NAUNET_SUCCESS;\n    }\n"},
+        {"file": CV, "old": "    realtype dt_init = dt;\n", "new": "    realtype dt_init = dt;\n    bool fixed       = false;\n"}]},
+    {"name": "setup-in-a-member-with-early-returns", "edits": [
+        {"file": CV, "old": _SETUP, "new": _CALL_SETUP},
+        {"file": CV, "old": _SOLVEHEAD, "new": _setup_member(_SETUP) + _SOLVEHEAD}]},
+    {"name": "odeint-failed-until-the-integration-returns", "edits": [
+        {"file": OD, "old": "    int flag = NAUNET_SUCCESS;\n\n    vector_type y", "new": "    int flag = NAUNET_FAIL;\n\n    vector_type y"},
+        {"file": OD, "old": "dt, dt, observer);\n", "new": "dt, dt, observer);\n        flag = NAUNET_SUCCESS;\n"},
+        {"file": OD, "old": "        flag = NAUNET_FAIL;\n", "new": ""}]},
+    {"name": "odeint-interval-named", "edits": [
+        {"file": OD, "old": "    Observer observer(mxsteps_);\n", "new": "    Observer observer(mxsteps_);\n    const double t_start = 0.0;\n    const double t_end   = dt;\n"},
+        {"file": OD, "old": "y, 0.0, dt, dt, observer);", "new": "y, t_start, t_end, dt, observer);"}]},
+    {"name": "observer-budget-in-a-predicate-postfix-count", "edits": [
+        {"file": ODE, "old": "void Observer::operator()", "new": "static bool Exhausted(int taken, int budget) { return taken >= budget; }\n\nvoid Observer::operator()"},
+        {"file": ODE, "old": "    step_ += 1;\n    time_ = t;\n    if (step_ > mxsteps_) {", "new": "    time_ = t;\n    if (Exhausted(step_++, mxsteps_)) {"}]},
+    {"name": "wrapper-throws-in-a-helper", "edits": [
+        {"file": OD, "old": "py::array_t<double> Naunet::PyWrapSolve(", "new": "static void ThrowIfFailed(int flag) {\n    if (flag == NAUNET_FAIL) {\n        throw std::runtime_error(\"Something unrecoverable occurred\");\n    }\n}\n\npy::array_t<double> Naunet::PyWrapSolve("},
+        {"file": OD, "old": "    int flag             = Solve(abund, dt, data);\n    if (flag == NAUNET_FAIL) {\n        throw std::runtime_error(\"Something unrecoverable occurred\");\n    }\n\n    return py::array_t<double>(info.shape, abund);", "new": "    ThrowIfFailed(Solve(abund, dt, data));\n\n    return py::array_t<double>(info.shape, abund);"}]},
+]
+
+
+# ---------------------------------------------------------------- third catalogue: pieces of the ladder / of the odeint driver as members with early returns
+_CHAIN = """        if (cvflag < 0 && cvflag > -5) {
+            for (int i = 0; i < NEQUATIONS; i++) {
+                ab_tmp_[i] = ab[i];
+            }
+            dt -= t0;
+        } else if (cvflag == -6) {
+            // The state may have something wrong
+            // Reset to the initial state and try finer steps
+            for (int i = 0; i < NEQUATIONS; i++) {
+                ab_tmp_[i] = ab_init_[i];
+            }
+            dt = dt_init;
+        } else if (cvflag < 0) {
+            fprintf(
+                errfp_,
+                "The error cannot be recovered by Naunet! Exit from Naunet!\\n");
+            fprintf(errfp_, "cvFlag = %d, level = %d\\n", cvflag, level);
+            return NAUNET_FAIL;
+        }
+"""
+_REINIT = """        t0 = 0.0;
+        for (int i = 0; i < NEQUATIONS; i++) {
+            ab[i] = ab_tmp_[i];
+        }
+
+        // Reinitialize
+        cvflag = CVodeReInit(cv_mem_, t0, cv_y_);
+        if (CheckFlag(&cvflag, "CVodeReInit", 1, errfp_) == NAUNET_FAIL) {
+            return NAUNET_FAIL;
+        }
+"""
+_RESTART = ("int Naunet::Restart(realtype *ab, realtype &t0) {\n    t0 = 0.0;\n    for (int i = 0; i < NEQUATIONS; i++) {\n        ab[i] = ab_tmp_[i];\n    }\n    int flag = CVodeReInit(cv_mem_, t0, cv_y_);\n"
+            "    if (CheckFlag(&flag, \"CVodeReInit\", 1, errfp_) == NAUNET_FAIL) {\n        return NAUNET_FAIL;\n    }\n    return NAUNET_SUCCESS;\n}\n\n")
+_TRY = """    step_ = 0;
+    try {
+        step_ = integrate_adaptive(
+            make_controlled<rosenbrock4<double>>(atol_, rtol_),
+            std::make_pair(Fex(data), Jac(data)), y, 0.0, dt, dt, observer);
+    } catch (const std::runtime_error &e) {
+        fprintf(errfp_, "%s\\n", e.what());
+
+        flag = NAUNET_FAIL;
+    }
+"""
+_INTEGRATE = "            std::make_pair(Fex(data), Jac(data)), y, 0.0, dt, dt, observer);\n"
+_OSOLVE = "int Naunet::Solve(double *abund, double dt, NaunetData *data) {\n"
+_CALL_PREPARE = "        if (!PrepareLevel(cvflag, ab, dt, t0, dt_init)) {\n            return NAUNET_FAIL;\n        }\n"
+
+
+def _prepare_level(sig):
+    """the classification of the flag at the start of a level as a member; `sig` decides how the interval is passed"""
+    return ("bool Naunet::PrepareLevel(" + sig + ") {\n    if (cvflag < 0 && cvflag > -5) {\n        for (int i = 0; i < NEQUATIONS; i++) {\n            ab_tmp_[i] = ab[i];\n        }\n        dt -= t0;\n        return true;\n    }\n"
+            "    if (cvflag == -6) {\n        for (int i = 0; i < NEQUATIONS; i++) {\n            ab_tmp_[i] = ab_init_[i];\n        }\n        dt = dt_init;\n        return true;\n    }\n"
+            "    if (cvflag < 0) {\n        fprintf(errfp_, \"The error cannot be recovered by Naunet! Exit from Naunet!\\n\");\n        return false;\n    }\n    return true;\n}\n\n")
+
+
+def _integrate_member(in_handler):
+    return ("int Naunet::Integrate(vector_type &y, double dt, NaunetData *data, Observer &observer) {\n    step_ = 0;\n    try {\n        step_ = integrate_adaptive(\n            make_controlled<rosenbrock4<double>>(atol_, rtol_),\n"
+            + _INTEGRATE + "    } catch (const std::runtime_error &e) {\n        fprintf(errfp_, \"%s\\n\", e.what());\n" + in_handler + "    }\n    return NAUNET_SUCCESS;\n}\n\n")
+
+
+MUTANTS += [
+    {"name": "level-preparation-member-interval-by-value", "edits": [
+        {"file": CV, "old": _CHAIN, "new": _CALL_PREPARE},
+        {"file": CV, "old": _HEAD, "new": _prepare_level("int cvflag, const realtype *ab, realtype dt, realtype t0, realtype dt_init") + _HEAD}], "rules": ["R3"]},
+    {"name": "odeint-try-in-a-member-that-always-succeeds", "edits": [
+        {"file": OD, "old": _TRY, "new": "    flag = Integrate(y, dt, data, observer);\n"},
+        {"file": OD, "old": _OSOLVE, "new": _integrate_member("") + _OSOLVE}], "rules": ["R4"]},
+    {"name": "odeint-integration-outside-try", "file": OD, "old": _TRY, "new": "    step_ = integrate_adaptive(\n            make_controlled<rosenbrock4<double>>(atol_, rtol_),\n" + _INTEGRATE, "rules": ["R4"]},
+    {"name": "solve-hands-over-a-stale-time", "edits": [
+        {"file": CV, "old": "    cvflag   = CVode(cv_mem_, dt, cv_y_, &t0, CV_NORMAL);\n", "new": "    const realtype reached = t0;\n    cvflag   = CVode(cv_mem_, dt, cv_y_, &t0, CV_NORMAL);\n"},
+        {"file": CV, "old": "    int flag = HandleError(cvflag, ab, dt, t0);\n", "new": "    int flag = HandleError(cvflag, ab, dt, reached);\n"}], "rules": ["R2"]},
+]
+BENIGN += [
+    {"name": "level-preparation-member-interval-by-reference", "edits": [
+        {"file": CV, "old": _CHAIN, "new": _CALL_PREPARE},
+        {"file": CV, "old": _HEAD, "new": _prepare_level("int cvflag, const realtype *ab, realtype &dt, realtype t0, realtype dt_init") + _HEAD}]},
+    {"name": "reinitialisation-in-a-member", "edits": [
+        {"file": CV, "old": _REINIT, "new": "        if (Restart(ab, t0) == NAUNET_FAIL) {\n            return NAUNET_FAIL;\n        }\n"},
+        {"file": CV, "old": _HEAD, "new": _RESTART + _HEAD}]},
+    {"name": "odeint-try-in-a-member-returning-from-the-handler", "edits": [
+        {"file": OD, "old": _TRY, "new": "    flag = Integrate(y, dt, data, observer);\n"},
+        {"file": OD, "old": _OSOLVE, "new": _integrate_member("        return NAUNET_FAIL;\n") + _OSOLVE}]},
+    {"name": "arguments-under-local-names", "edits": [
+        {"file": CV, "old": "    int flag = HandleError(cvflag, ab, dt, t0);\n", "new": "    const realtype reached = t0;\n    int flag = HandleError(cvflag, ab, dt, reached);\n"},
+        {"file": OD, "old": "    Observer observer(mxsteps_);\n", "new": "    const int budget = mxsteps_;\n    Observer observer{budget};\n"}]},
 ]
